@@ -65,7 +65,7 @@ WVALS = ["w&1", "<w2>", "w~3", "w4"]
 TEXTS = ["lit", "x&y", "<i>", "~z", " ", ".", "q1 "]
 FILTER_DEF = "<%! fb = lambda s: s.replace('~', '~~') %>"
 
-CASE_WALL_LIMIT_S = 300
+CASE_WALL_LIMIT_S = 60
 
 KEY_COLLISION = "cross-template-cache-collision"
 KEY_BEAKER_SET = "beaker-set-not-implemented"
@@ -850,7 +850,12 @@ class Machine:
         what = "t%d.render(%s)" % (ts.tid, ", ".join("%s=%r" % kv for kv in sorted(ctx.items())))
         rticks = []
         nref = len(ts.ref_log)
-        ref_out = ts.ref.render_unicode(tick=rticks.append, **ctx)
+        try:
+            ref_out = ts.ref.render_unicode(tick=rticks.append, **ctx)
+        except Exception as e:  # noqa: BLE001
+            # (every generated template renders; with the cache switched off the sections are ordinary defs and blocks)
+            raise self.fail("cache-disabled-render-raised:" + type(e).__name__,
+                            "%s with cache_enabled=False raised %s: %s" % (what, type(e).__name__, e), ts)
         try:
             tree = parse_tree(ref_out)
         except ValueError as e:
@@ -863,7 +868,11 @@ class Machine:
                             "(every cached section must run, the backend must not be used); output %r"
                             % (what, rticks, want, [(r[0], r[1]) for r in ts.ref_log[nref:]], ref_out[:600]), ts)
         pticks = []
-        plain_out = ts.plain.render_unicode(tick=pticks.append, **ctx)
+        try:
+            plain_out = ts.plain.render_unicode(tick=pticks.append, **ctx)
+        except Exception as e:  # noqa: BLE001
+            raise self.fail("uncached-text-render-raised:" + type(e).__name__,
+                            "%s: the same text with every cached=\"True\" replaced by cached=\"False\" raised %s: %s" % (what, type(e).__name__, e), ts)
         if plain_out != ref_out or pticks != rticks or len(ts.ref_log) != nref:
             raise self.fail("cache-disabled-differs-from-uncached",
                             "%s: the template with cache_enabled=False renders %r (bodies %r), the same text with every "
@@ -1292,6 +1301,30 @@ def case_labels(case, m):
     return sorted(labs)
 
 
+class _NoReturn(BaseException):
+    pass
+
+
+def _with_deadline(fn, ir=None, case=None):
+    """Cases take milliseconds; one that does not return within CASE_WALL_LIMIT_S wall-clock seconds is blocked (the model has
+    rejected every history in which a key is requested while it is being created, so a backend lock taken twice is mako's
+    doing) -> Failure `render-does-not-return`."""
+    def on_alarm(signum, frame):
+        raise _NoReturn()
+
+    old = signal.signal(signal.SIGALRM, on_alarm)
+    signal.setitimer(signal.ITIMER_REAL, CASE_WALL_LIMIT_S)
+    try:
+        return fn()
+    except _NoReturn:
+        c = case if case is not None else build_case(ir)
+        raise Failure(c, "[%s] the history did not return within %d s (blocked on a backend lock?): templates %r, ops %r"
+                      % (c["backend"], CASE_WALL_LIMIT_S, [t["text"][:300] for t in c["templates"]], c["ops"]), "render-does-not-return")
+    finally:
+        signal.setitimer(signal.ITIMER_REAL, 0)
+        signal.signal(signal.SIGALRM, old)
+
+
 def shard_search(task):
     seed, n, backends, exec_early_inv = task
     core.setup_repo()
@@ -1325,18 +1358,9 @@ def shard_search(task):
             raise f
 
     def guarded(ir):
-        # dead-lock guard only (a re-entrant backend call under a broken tree): harness error, never a verdict
-        signal.setitimer(signal.ITIMER_REAL, CASE_WALL_LIMIT_S)
-        try:
-            check(ir)
-        finally:
-            signal.setitimer(signal.ITIMER_REAL, 0)
+        _with_deadline(lambda: check(ir), ir)
 
-    def on_alarm(signum, frame):
-        raise core.HarnessError("one C17 case ran for more than %d s (dead-locked backend?)" % CASE_WALL_LIMIT_S)
-
-    signal.signal(signal.SIGALRM, on_alarm)
-    fails, _ = core.hyp_search(case_strategy(backends), guarded, ev, seed, n)
+    fails, _ = core.hyp_search(case_strategy(backends), guarded, ev, seed, n, shrink_budget=10.0)
     return ev, fails
 
 
@@ -1374,7 +1398,9 @@ def replay(case):
     if case.get("probe"):
         return run_probe(case["probe"], case)
     try:
-        f, _ = check_case(case)
+        f, _ = _with_deadline(lambda: check_case(case), case=case)
     except Reject:
         return None
+    except Failure as f2:
+        return f2
     return f
